@@ -76,7 +76,7 @@ func runC17(r *simkit.Run) {
 	w.Cl.Logf = r.Logf
 	r.SetSiteDensity(0, 0)
 	w.Cl.Fault = func(c *mysim.Conn, st *mysim.Stmt) *mysim.FaultAction {
-		if t := strings.TrimSpace(st.SQL); strings.HasPrefix(t, ";") || strings.HasPrefix(t, "selec ") {
+		if t := strings.TrimSpace(st.SQL); strings.HasPrefix(t, ";") || strings.HasPrefix(t, "selec ") || strings.HasPrefix(t, "\xef\xbb\xbf") {
 			return &mysim.FaultAction{Err: &myproto.ServerError{Code: 1064, State: "42000", Msg: "You have an error in your SQL syntax"}}
 		}
 		if strings.Contains(st.SQL, "t_missing") {
@@ -114,6 +114,12 @@ func runC17(r *simkit.Run) {
 					} else {
 						p = c17piece{stmt: "selec * from t_plain where c = ';' and id = " + m, fails: "syntax", deco: "syntax-error"}
 					}
+					p.text = p.stmt
+				case x == 0 && failAt < 0 && tp.Chance(1, 10):
+					// a text that begins with a UTF-8 byte order mark (an editor's export): MySQL refuses the first
+					// statement; wherever the proxy cuts, it must cut the text it was given
+					st, _ := c17stmt(tp, m)
+					p = c17piece{stmt: "\xef\xbb\xbf" + st, fails: "syntax", deco: "byte-order-mark"}
 					p.text = p.stmt
 				case c == 0:
 					p = c17piece{text: []string{"", " ", "\n", "\t "}[tp.Choose(4)], deco: "blank"}
